@@ -601,6 +601,7 @@ type Frame struct {
 	args     [][]string
 	privAlloc map[*ssa.Alloc]bool
 	initGlobals []*ssa.Global
+	lookupIn    *lookupInfo
 	closureCell map[*ssa.Alloc]*ssa.MakeClosure
 	privHeaps map[string]bool // slice-element heaps whose arrays allocated here never escape (type-based)
 }
@@ -1199,7 +1200,7 @@ func (fr *Frame) enterLoop(li *loopInfo, pc string, st *State) (string, *State) 
 	st = st.clone()
 	names, all := fr.loopWrites(li)
 	if all {
-		vc.havocAllKeeping(st, fr.topFrame().privHeaps)
+		fr.havocInterference(st)
 	} else {
 		if names["$store"] {
 			// havoc every heap component written in the loop: determined lazily is unsound, so havoc all known heaps
@@ -1722,4 +1723,9 @@ func (fr *Frame) privateSliceHeaps() map[string]bool {
 func (fr *Frame) locsPrivate(addr ssa.Value) (*ssa.Alloc, bool) {
 	a := fr.rootPriv(addr)
 	return a, a != nil
+}
+
+type lookupInfo struct {
+	key, val, ok string
+	keyT, valT   types.Type
 }
